@@ -329,4 +329,11 @@ def convert (roots : List TNode) (p : ConvParams) (fuelHint : Nat) : PM (List AN
       return items.dropLast ++ [insertDeepest last.depth last tx]
   else return items
 
+/-- fuel for `convert`: every recursive call descends the tree or advances a repeater loop, and a loop runs at most as often as the
+largest written count or the number of supplied lines -/
+def convFuel (toks : List Tok) (p : ConvParams) : Nat :=
+  4 * toks.length + 5000
+    + toks.foldl (fun m t => match t.tok with | .repeater c _ => max m c | _ => m) 0
+    + (match p.text with | .lines ls => ls.length | _ => 0)
+
 end T
